@@ -73,7 +73,8 @@ def build(case) -> Built:
     b.last.external_torque = external_torque
     apply_initial_conditions(b)
     b.powertrain = Powertrain(motor=b.motor)
-    b.control = build_control(b) if case.get('control') else None
+    b.rules = []
+    b.control = build_control(b) if case.get('control') is not None else None
     b.stop = build_stop(b) if case.get('stop') else None
     b.solver = None
     return b
